@@ -590,7 +590,14 @@ fn origin_response_head(upgrade: bool) -> Vec<u8> {
     }
 }
 
+/// where the origin cuts its first write (response head + B1) in two, 0 = one piece; rotated by the
+/// caller so that the head reaches the proxy whole, cut inside the status line, inside and between
+/// header lines, just before its end and inside the bytes that follow it
+static ORIGIN_CUT: std::sync::atomic::AtomicUsize = std::sync::atomic::AtomicUsize::new(0);
+const ORIGIN_CUTS: &[usize] = &[0, 1, 12, 33, 44, 70, 9990, 9995];
+
 async fn origin_conn(mut s: TcpStream, log: Arc<Mutex<OriginLog>>, up_len: usize) {
+    let _ = s.set_nodelay(true);
     let mut tmp = [0u8; 4096];
     let mut head_end = None;
     // the request head
@@ -610,8 +617,15 @@ async fn origin_conn(mut s: TcpStream, log: Arc<Mutex<OriginLog>>, up_len: usize
         String::from_utf8_lossy(&g.rx[..head_end]).to_ascii_lowercase().contains("\r\nupgrade:")
     };
     let mut first = origin_response_head(upgrade);
+    let hl = first.len();
     first.extend_from_slice(B1);
-    if s.write_all(&first).await.is_err() {
+    let cut = match ORIGIN_CUT.load(std::sync::atomic::Ordering::SeqCst) { 9990 => hl - 2, 9995 => hl + 5, c => c };
+    if cut > 0 && cut < first.len() {
+        if s.write_all(&first[..cut]).await.is_err() { return; }
+        let _ = s.flush().await;
+        tokio::time::sleep(Duration::from_millis(60)).await;
+        if s.write_all(&first[cut..]).await.is_err() { return; }
+    } else if s.write_all(&first).await.is_err() {
         return;
     }
     // everything the client sends after the head
@@ -1234,6 +1248,10 @@ fn main() {
                     watchdog::leave();
                     continue;
                 };
+                let cut = ORIGIN_CUTS[(rep.counters.get("rp_runs_total").cloned().unwrap_or(0) as usize) % ORIGIN_CUTS.len()];
+                ORIGIN_CUT.store(cut, std::sync::atomic::Ordering::SeqCst);
+                rep.count("rp_runs_total", 1);
+                rep.count(&format!("rp_origin_head_cut_{}", cut), 1);
                 let res = catch(|| rt_real.block_on(run_with_origin(&v, ip)));
                 watchdog::leave();
                 rep.eval();
